@@ -16,65 +16,69 @@ import (
 // funcBindings: XPath function name -> factory function called for it in the
 // builder's function dispatch (innermost label wins).
 func (w *World) funcBindings() map[string][]*types.Func {
+	if w.bindCache != nil {
+		return w.bindCache
+	}
 	out := map[string][]*types.Func{}
-	si := w.functionSwitch()
-	if si == nil {
+	fb, _, err := w.functionBuilds()
+	if err != nil {
 		return out
 	}
-	isFactory := func(f *types.Func) bool {
-		sig := f.Type().(*types.Signature)
-		if sig.Recv() != nil || sig.Results().Len() != 1 {
-			return false
+	add := func(name string, fn *ssa.Function) {
+		if fn == nil {
+			return
 		}
-		_, ok := sig.Results().At(0).Type().Underlying().(*types.Signature)
-		return ok
+		obj, ok := fn.Object().(*types.Func)
+		if !ok {
+			return
+		}
+		for _, x := range out[name] {
+			if x == obj {
+				return
+			}
+		}
+		out[name] = append(out[name], obj)
 	}
-	collect := func(n ast.Node) []*types.Func {
-		var fs []*types.Func
-		ast.Inspect(n, func(x ast.Node) bool {
-			switch y := x.(type) {
-			case *ast.CallExpr:
-				if id, ok := y.Fun.(*ast.Ident); ok {
-					if f, ok := w.Info.Uses[id].(*types.Func); ok && isFactory(f) {
-						fs = append(fs, f)
-					}
-				}
-			case *ast.Ident:
-				// a named function used as a value (Func: reverseFunc)
-				if f, ok := w.Info.Uses[y].(*types.Func); ok && f.Pkg() == w.Types {
-					sig := f.Type().(*types.Signature)
-					if sig.Recv() == nil && sig.Params().Len() == 2 && w.isQueryType(sig.Params().At(0).Type()) {
-						fs = append(fs, f)
-					}
-				}
-			}
-			return true
-		})
-		return fs
-	}
-	for _, c := range si.Cases {
-		// inner switch on the same tag?
-		var inner *ast.SwitchStmt
-		ast.Inspect(c.Clause, func(x ast.Node) bool {
-			if sw, ok := x.(*ast.SwitchStmt); ok && sw != si.Stmt && inner == nil {
-				inner = sw
-			}
-			return true
-		})
-		if inner != nil {
-			for _, s := range inner.Body.List {
-				cc := s.(*ast.CaseClause)
-				for _, e := range cc.List {
-					if lab, ok := w.constStr(e); ok {
-						out[lab] = append(out[lab], collect(cc)...)
-					}
-				}
-			}
+	for k, outs := range fb {
+		if k.Name == unknownFunctionName {
 			continue
 		}
-		fs := collect(c.Clause)
-		for _, l := range c.Labels {
-			out[l] = append(out[l], fs...)
+		for _, o := range outs {
+			if !o.Accepted {
+				continue
+			}
+			for _, c := range o.Calls {
+				add(k.Name, c.Fn)
+			}
+			// a named function used directly as the implementation (Func: reverseFunc)
+			for _, fv := range w.funcFieldsOf(o) {
+				if fv.Kind == avFunc && fv.Fn.Parent() == nil {
+					add(k.Name, fv.Fn)
+				}
+			}
+		}
+	}
+	w.bindCache = out
+	return out
+}
+
+// funcFieldsOf: the values of the func-typed fields of the query object an
+// accepted build returned.
+func (w *World) funcFieldsOf(o buildOutcome) []AVal {
+	var out []AVal
+	if o.Result.Kind != avPtr {
+		return out
+	}
+	obj := o.St.obj(o.Result.Obj)
+	st, ok := obj.Type.Underlying().(*types.Struct)
+	if !ok {
+		return out
+	}
+	for i := 0; i < st.NumFields(); i++ {
+		if _, isSig := st.Field(i).Type().Underlying().(*types.Signature); isSig {
+			if v, ok := obj.Fields[i]; ok {
+				out = append(out, v)
+			}
 		}
 	}
 	return out
@@ -388,52 +392,51 @@ func (w *World) emptySetGivesEmptyString(cl *ssa.Function) bool {
 
 // checkTrueFalse: true()/false() are bound to the constant of their name.
 func (w *World) checkTrueFalse(r *Report) {
-	si := w.functionSwitch()
-	if si == nil {
+	fb, br, err := w.functionBuilds()
+	if err != nil {
+		r.bad("ANCHOR", "B-PRIM:true/false", "", err.Error())
 		return
 	}
-	for _, c := range si.Cases {
-		hasT, hasF := false, false
-		for _, l := range c.Labels {
-			if l == "true" {
-				hasT = true
+	pos := w.pos(br.FuncB.Pos())
+	for _, name := range []string{"true", "false"} {
+		want := name == "true"
+		outs := fb[fnBuildKey{name, 0}]
+		okAll, n := true, 0
+		why := ""
+		for _, o := range outs {
+			if !o.Accepted {
+				continue
 			}
-			if l == "false" {
-				hasF = true
+			for _, fv := range w.funcFieldsOf(o) {
+				if fv.Kind != avFunc {
+					okAll, why = false, "the implementation is not a function value the builder makes in place"
+					continue
+				}
+				n++
+				// the implementation evaluated on unknown arguments must return the constant
+				ai := w.newInterp(AHooks{})
+				var args []AVal
+				for range fv.Fn.Params {
+					args = append(args, aUnknown(nil))
+				}
+				for _, ro := range ai.Exec(fv.Fn, args, fv.Bind, o.St.fork()) {
+					if b, ok := ro.Ret.Bool(); !ok || b != want || ro.Panicked || ro.Cut {
+						okAll, why = false, fmt.Sprintf("%s() evaluates to %s", name, ro.Ret.String())
+					}
+				}
 			}
 		}
-		if !hasT && !hasF {
-			continue
+		if n == 0 {
+			okAll, why = false, "no implementation built for "+name+"()"
 		}
-		ok := false
-		bad := false
-		ast.Inspect(c.Clause, func(x ast.Node) bool {
-			be, isB := x.(*ast.BinaryExpr)
-			if !isB {
-				return true
-			}
-			if s, isS := w.constStr(be.Y); isS {
-				if be.Op == token.EQL && s == "true" || be.Op == token.NEQ && s == "false" {
-					ok = true
-				}
-				if be.Op == token.EQL && s == "false" || be.Op == token.NEQ && s == "true" {
-					bad = true
-				}
-			}
-			return true
-		})
-		if hasT && hasF && ok && !bad {
-			r.ok("B-PRIM", "true/false", w.pos(c.Clause.Pos()), "the constant is `name == \"true\"`")
+		if okAll {
+			r.ok("B-PRIM", "true/false:"+name, pos, name+"() evaluates to the constant "+name)
 		} else {
-			r.bad("B-PRIM", "true/false", w.pos(c.Clause.Pos()), "true()/false() are not bound to the boolean constant of their own name")
+			r.bad("B-PRIM", "true/false:"+name, pos, "true()/false() are not bound to the boolean constant of their own name: "+why)
 		}
-		return
 	}
-	r.bad("B-PRIM", "true/false", "", "no case for true()/false()")
 }
 
-// checkBeforeAfterFlag: the bool handed to the shared implementation is
-// `name == "substring-after"`, and that flag selects the suffix.
 func (w *World) checkBeforeAfterFlag(r *Report) {
 	si := w.functionSwitch()
 	if si == nil {
@@ -683,92 +686,135 @@ func (w *World) argIndexOf(fn *ssa.Function, v ssa.Value, seen map[ssa.Value]boo
 }
 
 func ruleBArgs(w *World, r *Report) {
-	r.rule("B-ARGS", "in the builder's function dispatch the i-th query parameter of every function factory receives the query built from the i-th argument expression (or, for an optional argument, nothing / the synthesised context step); variadic factories receive all arguments in order")
-	si := w.functionSwitch()
-	if si == nil {
-		r.bad("ANCHOR", "B-ARGS", "", "function dispatch not found")
+	r.rule("B-ARGS", "for every function name the builder compares with and every argument count 0..4 the function builder is followed by constant propagation (absint.go), calls of the node dispatcher standing for \"the query built from that node\": the i-th query parameter of the factory receives the query built from the i-th argument expression (or, for an optional argument, nothing / the synthesised context step self::node()); variadic factories receive all arguments in order. B-ARITY: a parameter is left out only where XPath makes the argument optional")
+	fb, br, err := w.functionBuilds()
+	if err != nil {
+		r.bad("ANCHOR", "B-ARGS", "", err.Error())
 		return
 	}
-	obj, _ := w.Info.Defs[si.Func.Name].(*types.Func)
-	fn := w.Prog.FuncValue(obj)
-	if fn == nil {
-		r.bad("ANCHOR", "B-ARGS", "", "function dispatch function not resolved")
-		return
+	r.FuncsAnalysed[fnName(br.FuncB)] = true
+	all, okAll := w.allNodeConst()
+	isCtxStep := func(tag string) (isSynth, good bool) {
+		if !strings.HasPrefix(tag, "q:new:") {
+			return false, false
+		}
+		good = strings.Contains(tag, `AxisType="self"`) && strings.Contains(tag, `LocalName=""`) && strings.Contains(tag, `Prefix=""`) && okAll && strings.Contains(tag, fmt.Sprintf("typeTest=%d}", all)) || strings.Contains(tag, fmt.Sprintf("typeTest=%d,", all)) && strings.Contains(tag, `AxisType="self"`) && strings.Contains(tag, `LocalName=""`) && strings.Contains(tag, `Prefix=""`)
+		return true, good
 	}
-	r.FuncsAnalysed[fnName(fn)] = true
+	type paramKey struct {
+		fn *ssa.Function
+		i  int
+	}
+	type paramInfo struct {
+		name     string
+		site     ssa.CallInstruction
+		problems []string
+		sources  map[string]bool
+		omitted  bool
+	}
+	params := map[paramKey]*paramInfo{}
+	var order []paramKey
 	n := 0
-	eachInstr(fn, false, func(_ *ssa.Function, in ssa.Instruction) {
-		c, ok := in.(*ssa.Call)
-		if !ok {
-			return
+	for _, name := range br.Names {
+		if !w.relevantName(name) {
+			continue
 		}
-		f := c.Call.StaticCallee()
-		if f == nil || !w.inPkg(f) || f.Signature.Recv() != nil || f.Signature.Results().Len() != 1 {
-			return
-		}
-		if _, ok := f.Signature.Results().At(0).Type().Underlying().(*types.Signature); !ok {
-			return
-		}
-		if w.irrelevantFn(f) {
-			return
-		}
-		qi := 0
-		for i, a := range c.Call.Args {
-			pt := f.Signature.Params().At(min(i, f.Signature.Params().Len()-1)).Type()
-			isVariadic := f.Signature.Variadic() && i == f.Signature.Params().Len()-1
-			if !w.isQueryType(pt) && !isVariadic {
-				continue
-			}
-			n++
-			key := fmt.Sprintf("%s:arg%d", f.Name(), qi+1)
-			w.argSite = c.Block()
-			idx := dedupInts(w.argIndexOf(fn, a, map[ssa.Value]bool{}))
-			w.argSite = nil
-			okAll := len(idx) > 0
-			for _, j := range idx {
-				switch {
-				case isVariadic && j == -4:
-				case j == qi, j == -1, j == -2:
-				default:
-					okAll = false
+		for cnt := 0; cnt <= 4; cnt++ {
+			for _, o := range fb[fnBuildKey{name, cnt}] {
+				if !o.Accepted {
+					continue
 				}
-			}
-			// optional arguments: only where XPath has them
-			optional := map[string]bool{"substringFunc:arg3": true, "nameFunc:arg1": true, "localNameFunc:arg1": true, "namespaceFunc:arg1": true,
-				"normalizespaceFunc:arg1": true, "stringFunc:arg1": true, "numberFunc:arg1": true, "concatFunc:arg1": true}
-			_ = optional
-			isOpt := false
-			for _, j := range idx {
-				if j == -1 || j == -2 {
-					isOpt = true
-				}
-			}
-			if okAll && isOpt && !w.optionalArgAllowed(f, qi) {
-				r.bad("B-ARITY", key, w.instrPos(c), fmt.Sprintf("argument %d of %s may be omitted (the builder substitutes %s), but XPath requires it: an expression damaged by removing the argument still compiles", qi+1, f.Name(), describeIdx(idx)))
-			} else if okAll {
-				r.ok("B-ARITY", key, w.instrPos(c), "required arguments cannot be omitted (arity test or index fault inside the recover)")
-			}
-			if w.curProp == "C17" {
-				// C17 is about rejecting damaged expressions: only the arity half applies
-				if !okAll {
-					wired := true
-					for _, j := range idx {
-						if j == -3 {
-							wired = false
+				for _, c := range o.Calls {
+					qi := 0
+					// more arguments than the factory has query parameters: beyond what
+					// XPath allows for this function, outside every property's fragment
+					nq := 0
+					for i := 0; i < c.Fn.Signature.Params().Len(); i++ {
+						if w.isQueryType(c.Fn.Signature.Params().At(i).Type()) {
+							nq++
 						}
 					}
-					if !wired {
-						r.undec("B-ARITY", key, w.instrPos(c), "argument source not understood")
+					if !c.Fn.Signature.Variadic() && cnt > nq {
+						continue
+					}
+					for i, a := range c.Args {
+						sig := c.Fn.Signature
+						pt := sig.Params().At(min(i, sig.Params().Len()-1)).Type()
+						isVariadic := sig.Variadic() && i == sig.Params().Len()-1
+						if !w.isQueryType(pt) && !isVariadic {
+							continue
+						}
+						k := paramKey{c.Fn, qi}
+						pi := params[k]
+						if pi == nil {
+							pi = &paramInfo{name: name, site: c.Site, sources: map[string]bool{}}
+							params[k] = pi
+							order = append(order, k)
+							n++
+						}
+						if isVariadic {
+							elems, ok := o.St.elems(a)
+							if !ok {
+								pi.problems = append(pi.problems, "the variadic argument list is not a slice built from the arguments")
+							} else {
+								for j, e := range elems {
+									if e.Tag != fmt.Sprintf("q:arg%d", j) {
+										pi.problems = append(pi.problems, fmt.Sprintf("element %d of the variadic list is built from %s", j+1, describeTag(e)))
+									}
+								}
+								if len(elems) != cnt {
+									pi.problems = append(pi.problems, fmt.Sprintf("%d of %d arguments are passed on", len(elems), cnt))
+								}
+								pi.sources["all arguments in order"] = true
+							}
+							qi++
+							continue
+						}
+						switch {
+						case a.Tag == fmt.Sprintf("q:arg%d", qi):
+							pi.sources[fmt.Sprintf("#%d", qi+1)] = true
+						case a.Kind == avNil && cnt <= qi:
+							pi.sources["nothing (optional)"] = true
+							pi.omitted = true
+						default:
+							if synth, good := isCtxStep(a.Tag); synth && cnt <= qi {
+								pi.omitted = true
+								if good {
+									pi.sources["the context step"] = true
+								} else {
+									pi.problems = append(pi.problems, "a synthesised step that is not self::node() (it drops context nodes that are not elements)")
+								}
+							} else {
+								pi.problems = append(pi.problems, fmt.Sprintf("with %d argument(s) it receives %s", cnt, describeTag(a)))
+							}
+						}
+						qi++
 					}
 				}
-			} else if okAll {
-				r.ok("B-ARGS", key, w.instrPos(c), fmt.Sprintf("built from argument expression %s", describeIdx(idx)))
-			} else {
-				r.bad("B-ARGS", key, w.instrPos(c), fmt.Sprintf("parameter %d of %s receives the query built from %s: not the argument XPath prescribes for that position", qi+1, f.Name(), describeIdx(idx)))
 			}
-			qi++
 		}
-	})
+	}
+	for _, k := range order {
+		pi := params[k]
+		key := fmt.Sprintf("%s:arg%d", k.fn.Name(), k.i+1)
+		pos := w.instrPos(pi.site)
+		if pi.omitted && len(pi.problems) == 0 && !w.optionalArgAllowed(k.fn, k.i) {
+			r.bad("B-ARITY", key, pos, fmt.Sprintf("argument %d of %s may be omitted (the builder substitutes %s), but XPath requires it: an expression damaged by removing the argument still compiles", k.i+1, k.fn.Name(), strings.Join(sortedKeysStr(pi.sources), " | ")))
+		} else if len(pi.problems) == 0 {
+			r.ok("B-ARITY", key, pos, "required arguments cannot be omitted (arity test or index fault inside the recover)")
+		}
+		if w.curProp == "C17" {
+			if len(pi.problems) > 0 {
+				r.undec("B-ARITY", key, pos, "argument source not understood: "+strings.Join(dedup(pi.problems), "; "))
+			}
+			continue
+		}
+		if len(pi.problems) == 0 {
+			r.ok("B-ARGS", key, pos, "built from argument expression "+strings.Join(sortedKeysStr(pi.sources), " | "))
+		} else {
+			r.bad("B-ARGS", key, pos, fmt.Sprintf("parameter %d of %s: %s: not the argument XPath prescribes for that position", k.i+1, k.fn.Name(), strings.Join(dedup(pi.problems), "; ")))
+		}
+	}
 	need := 20
 	if _, filtered := propFuncs[w.curProp]; filtered {
 		need = 1 // only the factories of the functions this property covers are examined
@@ -776,6 +822,20 @@ func ruleBArgs(w *World, r *Report) {
 	if n < need {
 		r.bad("B-ARGS", "sites", "", fmt.Sprintf("only %d factory arguments examined", n))
 	}
+}
+
+func describeTag(a AVal) string {
+	switch {
+	case a.Kind == avNil:
+		return "nothing"
+	case strings.HasPrefix(a.Tag, "q:arg"):
+		return "the query built from argument #" + strings.TrimPrefix(a.Tag, "q:arg") + " (counted from 0)"
+	case strings.HasPrefix(a.Tag, "q:"):
+		return "the query built from " + strings.TrimPrefix(a.Tag, "q:")
+	case a.Tag != "":
+		return a.Tag
+	}
+	return "a value of unknown origin"
 }
 
 func min(a, b int) int {
@@ -819,7 +879,6 @@ func describeIdx(idx []int) string {
 	return strings.Join(p, " | ")
 }
 
-
 // optionalArgAllowed: XPath lets the i-th argument of the function(s) bound to
 // this factory be omitted (name(), local-name(), namespace-uri(), string(),
 // number(), normalize-space() apply to the context node; substring's length;
@@ -839,7 +898,6 @@ func (w *World) optionalArgAllowed(f *ssa.Function, i int) bool {
 	}
 	return false
 }
-
 
 // edgeCompatible: the string facts (switch labels) that hold on the edge
 // pred->blk are compatible with those that hold at block site.
@@ -890,7 +948,6 @@ func (w *World) edgeCompatible(fn *ssa.Function, pred, blk, site *ssa.BasicBlock
 	}
 	return true
 }
-
 
 // resultProducer: the callee whose result is what the function returns.
 var resultProducer = map[string]string{
